@@ -274,6 +274,13 @@ def run_case(case):
                     continue
                 if complete and fmt == "pdb" and (t.xyz.max() > 900 or mL.max() > 900):
                     continue
+                if complete and fmt == "pdb":
+                    # load_pdb documents that a CRYST1 record implying more than 1000 atoms per nm^3 is taken for a dummy and
+                    # discarded: such cells are not representable through the default loader
+                    vol0 = abs(float(np.linalg.det(gen.box_vectors(mL[0], mA[0]))))
+                    if t.n_atoms / max(vol0, 1e-12) > 500:
+                        labels.append("skip-pdb-dummy-cell-heuristic")
+                        continue
                 if fmt == "lammpstrj" and not complete:
                     continue
                 with files.scratch() as d:
